@@ -559,6 +559,7 @@ func c16TxImplKey(sb *strings.Builder, tv reflect.Value) {
 	} else {
 		sb.WriteString("?")
 	}
+	c16UnknownFields(sb, tv, "msgTx", "txHash", "txIndex")
 }
 
 func c16BlockImplKey(b *bchutil.Block) string {
@@ -615,7 +616,40 @@ func c16BlockImplKey(b *bchutil.Block) string {
 	} else {
 		sb.WriteString(" h?")
 	}
+	c16UnknownFields(&sb, v, "msgBlock", "transactions", "txnsGenerated", "blockHash", "serializedBlock", "blockHeight")
 	return sb.String()
+}
+
+// c16UnknownFields appends a summary of every struct field not named in known: a cache added by a
+// change is implementation state too, and states that differ in it must not be merged.
+func c16UnknownFields(sb *strings.Builder, v reflect.Value, known ...string) {
+	for fi := 0; fi < v.NumField(); fi++ {
+		name := v.Type().Field(fi).Name
+		skip := false
+		for _, k := range known {
+			if k == name {
+				skip = true
+			}
+		}
+		if skip {
+			continue
+		}
+		fv := v.Field(fi)
+		switch fv.Kind() {
+		case reflect.Slice, reflect.Map:
+			fmt.Fprintf(sb, " %s=len%d", name, fv.Len())
+		case reflect.Ptr, reflect.Interface, reflect.Func, reflect.Chan:
+			fmt.Fprintf(sb, " %s=nil%v", name, fv.IsNil())
+		case reflect.Bool:
+			fmt.Fprintf(sb, " %s=%v", name, fv.Bool())
+		case reflect.Int, reflect.Int8, reflect.Int16, reflect.Int32, reflect.Int64:
+			fmt.Fprintf(sb, " %s=%d", name, fv.Int())
+		case reflect.Uint, reflect.Uint8, reflect.Uint16, reflect.Uint32, reflect.Uint64:
+			fmt.Fprintf(sb, " %s=%d", name, fv.Uint())
+		default:
+			fmt.Fprintf(sb, " %s=zero%v", name, fv.IsZero())
+		}
+	}
 }
 
 func c16MissingFields() []string {
